@@ -153,11 +153,11 @@ func (c *verifK11Clock) still() {
 }
 
 // verifK11EarlyWindow (grid mode with jitter only, i.e. the counterexample-seeking jobs): the final request arrives
-// within the first quarter of the extra lifetime that jitter can give the entry. Natively the jitter is really
-// random; with this restriction at least 3 of 4 native trials re-enact a model's schedule successfully.
+// within the first half of the extra lifetime that jitter can give the entry. Natively the jitter is really
+// random; with this restriction at least every second native trial re-enacts a model's schedule successfully.
 func verifK11EarlyWindow(clk *verifK11Clock, jitter uint32, g, setAt time.Time, base time.Duration) {
 	if clk.grid && jitter > 0 && vt.Symbolic() {
-		vt.Assume(g.Sub(setAt) <= base+base*time.Duration(jitter)/400)
+		vt.Assume(g.Sub(setAt) <= base+base*time.Duration(jitter)/200)
 	}
 }
 
